@@ -17,7 +17,7 @@ import hypothesis.strategies as st
 import torch
 from tensordict import TensorDict
 
-from ..envs import SPECS, py_instance
+from ..envs import ENV_SHAPE_FREE, SPECS, py_instance
 from ..play import judge_row
 from ..runner import Sub, repo_frame, SkipCase, Violation
 
@@ -27,12 +27,21 @@ RULE = (
     "int/float dtypes, nested TensorDicts) with element-tagged content; exhaustive over all (B, factors) with "
     "B*prod(factors) <= 240; non-trivial = B>=2 and >=2 factors not all equal. "
     "B: env x config x generator/lattice/float instances (OP nodes beyond the budget, SVRP skills above technician 0, "
-    "TSP/CVRP instances larger or smaller than env.generator.num_loc) x k in 1..2n or default get_num_starts; "
+    "TSP/CVRP instances larger or smaller than env.generator.num_loc; for every other name of vf.envs.ENV_SHAPE_FREE - "
+    "sdvrp/cvrptw/svrp/op/mtvrp/flp/fjsp/mcp - 1/3 of the cases an env object built for another size than its "
+    "instances; hand-built CVRPTW rows in unscaled integer units) x k in 1..2n or default get_num_starts; "
     "non-trivial = B>=2, k>=2 and some row has an infeasible non-depot first move or k != #feasible. "
     "C: AM policy (embed 32, spread init) on tsp/cvrp/sdvrp (dynamic embedding branch)/pctsp/pdp/mtvrp/mtsp (reward read "
     "from the final state), n 4-8 (thorough 4-12), B 1-4 (thorough 1-6) distinct generator instances, "
     "multistart_greedy / multistart_sampling / sampling+num_samples, k explicit or default, select_best off and on "
-    "under the same torch seed, summed or per-step log-likelihood; non-trivial = B>=2, k>=2, k != B. "
+    "under the same torch seed, summed or per-step log-likelihood; 1/4 of the cases another bundled policy (am_pomo, "
+    "symnco, ham/pdp, matnet/atsp, mvmoe/mtvrp, polynet); 1/2 a request form (multistart_* name | multistart= / "
+    "multisample= flag | plain greedy/sampling with num_starts; counts k / None / 0 / 1; num_samples=1; greedy with "
+    "num_samples) whose layout follows the documented resolution rules (vf.props.c11.resolve_request; count <= 1 = "
+    "plain decode of B rows, select_best then changes nothing); decode type through phase + <phase>_decode_type (1/4); "
+    "caller-supplied select_start_nodes_fn (1/4 of the multistart cases: first actions == its answer, row r <-> "
+    "instance r mod B); env configuration / hand-built rows / env built for another size / constructor switches "
+    "(vf.policies.setup_dims); non-trivial = B>=2, k>=2, k != B. "
     "D: POMO.shared_step(val/test) with num_augment a in 2..4 (symmetric), num_starts s in 2..5, a != s mostly."
 )
 ASSUMPTIONS = [
@@ -41,7 +50,10 @@ ASSUMPTIONS = [
     "exact reward ties between candidates of one instance: any tied maximiser is accepted, but actions and "
     "log-likelihood must come from the same candidate",
     "independent objective oracle (vf.oracles.routing) on the ORIGINAL instance, tolerance 1e-5*(1+sum|terms|)",
-    "evaluate-mode comparison tolerance 1e-4 absolute per step (float32, different batch layouts)",
+    "evaluate-mode comparison tolerance 1e-4*(1+|x|) per step (float32, different batch layouts) for the attention model "
+    "in its default configuration, 1e-3*(1+|x|) for the other policies, drawn env options and constructor switches (deeper "
+    "/ unclipped / saturated configurations amplify layout rounding, C11 measured 5e-4; layout defects are O(1)); "
+    "PolyNet conditions on the start index: no per-instance evaluation to compare with",
     "op / svrp / smtwtp are excluded by construction from C and D (their start rules are known findings F17-F19); "
     "mtsp runs in C only with at most as many starts as cities (wrap-around finding of sub-check B)",
     "get_best_actions has no caller and no docstring; it is read as 'actions of candidate max_idxs[b] of instance b'",
@@ -318,12 +330,34 @@ def start_cases(draw, tier="quick"):
     src = draw(st.sampled_from(spec.sources))
     if isinstance(cfg.get("n"), int) and cfg["n"] > 100:
         src, B = "gen", min(B, 3)
+    if name == "cvrptw" and src != "gen" and cfg.get("scale"):
+        # hand-built CVRPTW rows stay in UNSCALED integer units here (exact float32 arithmetic: "arrival == window end"
+        # is decided exactly).  Divided by max_time (vf.envs.CVRPTW.instance under scale=True) the boundary cases of
+        # the tight construction flip by rounding, and this sub-check takes the reset mask as ground truth
+        cfg = dict(cfg, scale=False)
     case = {"env": name, "cfg": cfg, "B": B, "src": src, "seed": draw(st.integers(0, 2 ** 31 - 1))}
     inst_cfg = cfg
     if name in MISMATCH and draw(st.integers(0, 2)) == 0:
         mm = draw(st.integers(2, 12).filter(lambda v: v != cfg["n"]))
         inst_cfg = dict(cfg, n=mm)
         case["inst_n"] = mm
+    elif name in ENV_SHAPE_FREE and name not in MISMATCH and draw(st.integers(0, 2)) == 0:
+        # env object built for another size than the instances it is given, for every env whose reset takes the sizes
+        # from the data (vf.envs.ENV_SHAPE_FREE; same override rule as vf.envs.episode_cases): the start rules of
+        # MTVRP / FLP / MCP / FJSP / OP / SVRP / SDVRP / CVRPTW must read the instance, not env.generator
+        ov = {}
+        for k_ in ENV_SHAPE_FREE[name]:
+            lo, hi = (1, 4) if k_ in ("jobs", "mas") else ((2, 9) if k_ == "sets" else ((3, 16) if k_ == "items" else (2, 12)))
+            ov[k_] = draw(st.integers(lo, hi))
+        if any(ov[k_] != cfg[k_] for k_ in ov):
+            if name == "fjsp":
+                ov["max_elig"] = min(cfg["max_elig"], ov["mas"])
+            if name == "flp":
+                ov["k"] = min(cfg["k"], ov["n"])
+            if name == "mcp":
+                ov["items"] = max(ov["items"], cfg["max_size"])
+                ov["k"] = min(cfg["k"], ov["sets"])
+            case["env_shape"] = ov
     if src in ("lat", "flt"):
         case["lat"] = draw(spec.lattice(inst_cfg, B, exact=(src == "lat")))
     elif src == "tgt":
@@ -363,19 +397,26 @@ def _step_outcome(env, td, sel, k):
         return f"{type(e).__name__}: {str(e)[:80]}"
 
 
+# env names whose start rule is an open known finding registered as start_nodes|<name>|*: their size-mismatch cases keep
+# the plain token (the same defect shows there; a separate family would re-report it)
+OPEN_START_FINDINGS = ("op", "svrp", "fjsp", "jssp")
+
+
 def env_token(name, cfg, mismatch):
     tok = name
     if name == "pdp" and cfg.get("force_start"):
         tok = "pdp_force_start"  # the reset mask admits only the depot there
-    return f"size_mismatch|{tok}" if mismatch else tok
+    return f"size_mismatch|{tok}" if (mismatch and name not in OPEN_START_FINDINGS) else tok
 
 
 def exec_starts(case, ctx):
     name, cfg, B = case["env"], case["cfg"], case["B"]
     spec = SPECS[name]
-    mismatch = case.get("inst_n") is not None
-    inst_cfg = dict(cfg, n=case["inst_n"]) if mismatch else cfg
-    env = spec.env(cfg)
+    mismatch = case.get("inst_n") is not None or bool(case.get("env_shape"))
+    inst_cfg = dict(cfg, n=case["inst_n"]) if case.get("inst_n") is not None else cfg
+    env = spec.env(dict(cfg, **case["env_shape"]) if case.get("env_shape") else cfg)
+    if case.get("env_shape"):
+        ctx.event(f"env_built_for_another_size|{name}")
     inst = ctx.guard(spec.instance, {**case, "cfg": inst_cfg}, what=f"instance|{name}")
     B = inst.batch_size[0]
     td = ctx.guard(env.reset, inst.clone(), what=f"reset|{name}")
@@ -426,9 +467,12 @@ def exec_starts(case, ctx):
                           f"instance {b}: forced start {bad[0]} is masked out at reset (mask {mask[b].int().tolist()})",
                           detail)
         if int(feas[b]) >= k and len(set(s)) < k:
-            ctx.violation(f"{pre}|duplicate|{reg}",
-                          f"instance {b}: starts {s} repeat although {int(feas[b])} >= k={k} feasible starts exist",
-                          detail)
+            # batch regime: whether some OTHER row of the batch has fewer than k feasible starts (the random start rule
+            # of FJSP/JSSP takes its with/without-replacement decision for the whole batch: known finding F37) or not
+            breg = "batch_min<k" if int(feas.min()) < k else "batch_min>=k"
+            ctx.violation(f"{pre}|duplicate|{reg}|{breg}",
+                          f"instance {b}: starts {s} repeat although {int(feas[b])} >= k={k} feasible starts exist "
+                          f"(fewest feasible starts in the batch: {int(feas.min())})", detail)
     # the forced first step itself (pre_decoder_hook: batchify, set action, env.step)
     if name != "ffsp" and in_range:
         td2 = harness_expand(td, k)
@@ -458,30 +502,78 @@ class SpyEnv:
 C_ENVS = ["tsp", "cvrp", "sdvrp", "pctsp", "pdp", "mtvrp", "mtsp"]
 EXCLUDED_C = ["op", "svrp", "smtwtp"]
 MODES = ["multistart_greedy", "multistart_sampling", "sampling"]
+# other bundled policies under the get_reward spy (1/4 of the cases): their decoder caches / embeddings are regrouped per
+# (instance, start) by their own code paths (POMO config without graph context, SymNCO, HAM's heterogeneous encoder,
+# MatNet's tuple embeddings, the MoE decoder, PolyNet's per-start strategy vectors)
+C_ZOO = [("am_pomo", "tsp"), ("am_pomo", "cvrp"), ("am_pomo", "sdvrp"), ("symnco", "tsp"), ("symnco", "cvrp"),
+         ("ham", "pdp"), ("matnet", "atsp"), ("mvmoe", "mtvrp"), ("polynet", "tsp"), ("polynet", "cvrp")]
+# request forms of a replicated decode (see vf.props.c11.request_kwargs / resolve_request: the documented resolution
+# rules of DecodingStrategy): explicit count forms need k, default-count forms run with k = None
+MS_FORMS_K = ["name+k"] * 3 + ["plain+k", "flag+k"]
+MS_FORMS_DEFAULT = ["name", "name+none", "flag"]
+MS_FORMS_PLAIN = ["name+0", "name+1", "flag+1"]
+SA_FORMS_K = ["samples=k"] * 3 + ["flag+k", "greedy+samples=k"]
+SA_FORMS_PLAIN = ["samples=1", "flag+1"]
 
 
 @st.composite
 def rollout_cases(draw, tier="quick"):
+    from ..policies import setup_dims, small_cfg
     big = tier != "quick"
-    name = draw(st.sampled_from(C_ENVS + EXCLUDED_C[:1]))
+    zoo = None
+    if draw(st.integers(0, 3)) == 0:
+        zoo = list(draw(st.sampled_from(C_ZOO)))
+        name = zoo[1]
+    else:
+        name = draw(st.sampled_from(C_ENVS + EXCLUDED_C[:1]))
     n = draw(st.integers(4, 12 if big else 8))
     B = draw(st.sampled_from([2, 2, 3, 3, 4, 1] + ([5, 6] if big else [])))
     mode = draw(st.sampled_from(MODES))
     k = draw(st.one_of(st.integers(2, n + 2), st.integers(2, 5), st.none() if mode != "sampling" else st.integers(2, 4)))
-    return {"env": name, "n": n, "B": B, "mode": mode, "k": k, "seed": draw(st.integers(0, 2 ** 31 - 1)),
+    case = {"env": name, "n": n, "B": B, "mode": mode, "k": k, "seed": draw(st.integers(0, 2 ** 31 - 1)),
             "pseed": draw(st.integers(0, 3)), "spread": draw(st.sampled_from([1.5, 2.0])),
             "tseed": draw(st.integers(0, 2 ** 20)), "sum_ll": draw(st.booleans())}
+    if zoo is not None:
+        case["zoo"] = zoo
+    key = zoo[0] if zoo else "am"
+    # ---- how the replicated decode is requested (flag resolution, degenerate counts), decode type through the phase
+    # attribute, a caller-supplied start rule
+    if draw(st.booleans()):
+        if mode == "sampling":
+            forms = SA_FORMS_K + (SA_FORMS_PLAIN if key != "polynet" else [])
+        elif k is None:
+            forms = MS_FORMS_DEFAULT
+        else:
+            forms = MS_FORMS_K + MS_FORMS_PLAIN
+        case["form"] = draw(st.sampled_from(forms))
+    if draw(st.integers(0, 3)) == 0:
+        case["dt_via"] = "phase"
+        case["phase"] = draw(st.sampled_from(["train", "val", "test"]))
+    if mode != "sampling" and draw(st.integers(0, 3)) == 0:
+        case["ssn"] = draw(st.integers(0, 7))
+    # ---- env configuration / instance source / env built for another size / constructor switches
+    if name not in EXCLUDED_C:
+        case.update(draw(setup_dims(key, name, n, small_cfg(name, n), B, tier, by_name=False)))
+    return case
 
 
 def rollout_minimizer(case):
+    for key in ("lat", "ecfg", "env_shape", "opts", "ssn", "dt_via", "form", "zoo"):
+        if key in case and not (key == "zoo" and case["env"] == "atsp") and not (key == "ecfg" and "lat" in case):
+            d = {kk: vv for kk, vv in case.items() if kk != key}
+            if key == "lat":
+                d.pop("src", None)
+            if key == "dt_via":
+                d.pop("phase", None)
+            yield d
     for key, lo in (("B", 2), ("n", 4)):
         if case[key] > lo:
             yield {**case, key: case[key] - 1}
     if case["k"] is not None and case["k"] > 2:
         yield {**case, "k": case["k"] - 1}
-    if case["k"] is None:
+    if case["k"] is None and case.get("form") is None:
         yield {**case, "k": 2}
-    if case["mode"] != "multistart_greedy":
+    if case["mode"] != "multistart_greedy" and case.get("form") is None:
         yield {**case, "mode": "multistart_greedy"}
     if not case["sum_ll"]:
         yield {**case, "sum_ll": True}
@@ -491,17 +583,37 @@ def _close(a, b, terms):
     return abs(a - b) <= 1e-5 * (1.0 + abs(terms))
 
 
+def _request(case):
+    """Decoding kwargs of the drawn request form (vf.props.c11.request_kwargs; C12's `sampling` mode = multisample)."""
+    from .c11 import request_kwargs
+    mode = "multisample" if case["mode"] == "sampling" else case["mode"]
+    form = case.get("form")
+    if form is None:
+        form = ("samples=k" if mode == "multisample" else ("name+none" if case["k"] is None else "name+k"))
+    return request_kwargs(mode, case["k"], form)
+
+
 def _run_policy(ctx, policy, td, env, case, k, what, **extra):
-    kw = dict(phase="test", decode_type=case["mode"], return_actions=True,
-              return_sum_log_likelihood=bool(case["sum_ll"]))
-    if case["mode"] == "sampling":
-        kw["num_samples"] = k
-    else:
-        kw["num_starts"] = k
+    kw = dict(phase="test", return_actions=True, return_sum_log_likelihood=bool(case["sum_ll"]))
+    kw.update(_request(case))
+    saved = None
+    if case.get("dt_via") == "phase":
+        # decode type from the `<phase>_decode_type` attribute of the requested phase (the others carry another type)
+        dt = kw.pop("decode_type")
+        other = "greedy" if "sampling" in dt else "sampling"
+        saved = {p_: getattr(policy, f"{p_}_decode_type") for p_ in ("train", "val", "test")}
+        for p_ in saved:
+            setattr(policy, f"{p_}_decode_type", dt if p_ == case["phase"] else other)
+        kw["phase"] = case["phase"]
     kw.update(extra)
     torch.manual_seed(int(case["tseed"]))
-    with torch.no_grad():
-        return ctx.guard(policy, td.clone(), env, what=what, **kw)
+    try:
+        with torch.no_grad():
+            return ctx.guard(policy, td.clone(), env, what=what, **kw)
+    finally:
+        if saved is not None:
+            for p_, v in saved.items():
+                setattr(policy, f"{p_}_decode_type", v)
 
 
 def _judge_rows(ctx, name, cfg, insts, B, actions, rewards, sig, what):
@@ -523,59 +635,110 @@ def _judge_rows(ctx, name, cfg, insts, B, actions, rewards, sig, what):
 
 
 def exec_rollouts(case, ctx):
-    from ..policies import build_policy, make_batch, small_cfg
+    from ..policies import StartFn, build_policy, make_batch, resolve_setup, setup_events, small_cfg
+    from .c11 import resolve_request
 
     name, B, mode = case["env"], case["B"], case["mode"]
+    key = case["zoo"][0] if case.get("zoo") else "am"
     if name in EXCLUDED_C:
         ctx.exclude(f"{name}: start rule is a known finding (F17-F19), excluded from end-to-end runs")
         return
-    cfg = small_cfg(name, case["n"])
-    env, inst, td0 = make_batch(name, cfg, B, case["seed"])
+    cfg, mkw = resolve_setup(case, small_cfg(name, case["n"]))
+    env, inst, td0 = make_batch(name, cfg, B, case["seed"], **mkw)
     insts = [py_instance(name, inst[b]) for b in range(B)]
-    policy = build_policy("am", name, seed=case["pseed"], spread=case["spread"], embed_dim=32)
+    policy = build_policy(key, name, seed=case["pseed"], spread=case["spread"], embed_dim=32, opts=case.get("opts"))
     mask0 = td0["action_mask"].reshape(B, -1).bool()
-    multistart = mode.startswith("multistart")
+    # what the request resolves to under the documented rules of DecodingStrategy (k_eff rollouts per instance; 0 = a
+    # plain decode of the B instances: no expansion, no forced first move, nothing to select)
+    req = _request(case)
+    multistart, multisample, k_eff = resolve_request(req, env.get_num_starts(td0))
     k = case["k"]
-    k_eff = k if k is not None else env.get_num_starts(td0)
+    if name == "pdp" and cfg.get("force_start") and multistart:
+        ctx.exclude("pdp force_start: the reset mask admits the depot only (F36, sub-check start_nodes)")
+        return
     if name == "mtsp" and multistart and k_eff > mask0.shape[1] - 1:
         # the wrap-around of the default rule is off by one for mTSP (start_nodes|mtsp|out_of_range|k>feas, sub-check B)
         ctx.exclude("mtsp with more starts than cities: start wrap-around finding of sub-check start_nodes")
         return
+    if k_eff * B > 96:
+        ctx.exclude("default count too large for the toy budget")
+        return
     sl = f"{name}|{mode}|{'k=default' if k is None else 'k'}"
+    tagn = name if key == "am" else f"{key}/{name}"
     ctx.event(sl)
+    ctx.event(f"policy:{key}")
+    setup_events(ctx, case, name, cfg)
+    if case.get("form"):
+        ctx.event(f"request:{case['form']}")
+    if case.get("dt_via") == "phase":
+        ctx.event(f"decode_type_via_phase:{case['phase']}")
+    plain = k_eff == 0
+    if plain:
+        ctx.event("request_resolves_to_plain_decode")
     if B >= 2 and k_eff >= 2 and k_eff != B:
         ctx.nontriv()
+    first = 1 if SPECS[name].has_depot_action else 0
+    extra = {}
+    ssn = None
+    if case.get("ssn") is not None and multistart:
+        if not bool(mask0[:, first:].any(-1).all()):
+            ctx.exclude("no feasible first move but the depot")
+            return
+        ssn = StartFn(case["ssn"], first)
+        extra["select_start_nodes_fn"] = ssn
+        ctx.event("select_start_nodes_fn")
 
     # ---- run 1: all candidates -----------------------------------------------------------
     spy = SpyEnv(env)
-    out = _run_policy(ctx, policy, td0, spy, case, k, f"policy|{sl}", select_best=False)
+    out = _run_policy(ctx, policy, td0, spy, case, k, f"policy|{sl}", select_best=False, **extra)
     acts, rew, ll = out["actions"], out["reward"], out["log_likelihood"]
-    R = k_eff * B
+    R = B if plain else k_eff * B
     if not ctx.check(acts.shape[0] == R and rew.reshape(-1).shape[0] == R and ll.shape[0] == R,
-                     f"rollout|{name}|{mode}|output_rows",
-                     f"expected {k_eff}*{B} rows, got actions {tuple(acts.shape)} reward {tuple(rew.shape)} ll {tuple(ll.shape)}"):
+                     f"rollout|{tagn}|{mode}|output_rows",
+                     f"expected {R} rows (request {req} resolves to "
+                     f"{'a plain decode' if plain else f'{k_eff} rollouts per instance'}, B={B}), got actions "
+                     f"{tuple(acts.shape)} reward {tuple(rew.shape)} ll {tuple(ll.shape)}"):
         return
     ctx.check(len(spy.calls) == 1 and torch.equal(spy.calls[0][1].reshape(-1), rew.reshape(-1)),
-              f"rollout|{name}|{mode}|spy", "returned rewards are not the ones get_reward produced")
-    _judge_rows(ctx, name, cfg, insts, B, acts, rew, f"rollout|{name}|{mode}", "all candidates")
-    if multistart:
-        first = 1 if SPECS[name].has_depot_action else 0
+              f"rollout|{tagn}|{mode}|spy", "returned rewards are not the ones get_reward produced")
+    _judge_rows(ctx, name, cfg, insts, B, acts, rew, f"rollout|{tagn}|{mode}", "all candidates")
+    if ssn is not None:
+        ctx.check(len(ssn.calls) == 1 and ssn.calls[0][0] == B and ssn.calls[0][1] is spy and ssn.calls[0][2] == k_eff,
+                  f"rollout|{tagn}|{mode}|start_fn_call",
+                  f"select_start_nodes_fn calls (batch, env, num_starts): {[(c[0], type(c[1]).__name__, c[2]) for c in ssn.calls]}, "
+                  f"expected one call (B={B}, the env, {k_eff})")
+        if ssn.out is not None:
+            ctx.check(torch.equal(acts[:, 0].long(), ssn.out), f"rollout|{tagn}|{mode}|start_fn_not_used",
+                      f"first actions {acts[:, 0].tolist()} are not the starts the caller's select_start_nodes_fn handed out "
+                      f"({ssn.out.tolist()}; row j*B+b = start j of instance b)")
+    if multistart and not plain:
         feas = mask0[:, first:].sum(-1)
         S = acts[:, 0].view(k_eff, B)
         for b in range(B):
             s = S[:, b].tolist()
             bad = [v for v in s if not (0 <= v < mask0.shape[1] and bool(mask0[b, v]))]
-            ctx.check(not bad, f"rollout|{name}|{mode}|start_infeasible",
+            ctx.check(not bad, f"rollout|{tagn}|{mode}|start_infeasible",
                       f"instance {b}: first action {bad[:1]} of its rollouts is not in its reset mask", {"starts": S.t()})
             if int(feas[b]) >= k_eff:
-                ctx.check(len(set(s)) == k_eff, f"rollout|{name}|{mode}|start_duplicate",
+                ctx.check(len(set(s)) == k_eff, f"rollout|{tagn}|{mode}|start_duplicate",
                           f"instance {b}: first actions {s} repeat although {int(feas[b])} feasible starts exist")
+    if plain:
+        # nothing is replicated: with select_best the same B rows come back (there is nothing to select from)
+        spy2 = SpyEnv(env)
+        outb = _run_policy(ctx, policy, td0, spy2, case, k, f"policy_select_best|{sl}", select_best=True, **extra)
+        ctx.check(outb["actions"].shape[0] == B and torch.equal(outb["actions"], acts)
+                  and torch.equal(outb["reward"].reshape(-1), rew.reshape(-1)), f"select_best|{tagn}|{mode}|plain_decode_changed",
+                  "select_best changed the output of a request that resolves to a plain decode under the same torch seed")
+        ctx.sample({"env": name, "n": case["n"], "B": B, "mode": mode, "request": req, "resolved": "plain"})
+        return
 
     # ---- run 2: select_best under the same seed -------------------------------------------
     spy2 = SpyEnv(env)
-    outb = _run_policy(ctx, policy, td0, spy2, case, k, f"policy_select_best|{sl}", select_best=True)
+    if ssn is not None:
+        extra["select_start_nodes_fn"] = ssn = StartFn(case["ssn"], first)
+    outb = _run_policy(ctx, policy, td0, spy2, case, k, f"policy_select_best|{sl}", select_best=True, **extra)
     ab, rb, lb = outb["actions"], outb["reward"].reshape(-1), outb["log_likelihood"]
-    sb = f"select_best|{name}|{mode}"
+    sb = f"select_best|{tagn}|{mode}"
     if not ctx.check(ab.shape[0] == B and rb.shape[0] == B and lb.shape[0] == B, f"{sb}|output_rows",
                      f"select_best must return one row per instance: actions {tuple(ab.shape)} reward {tuple(rb.shape)}"):
         return
@@ -610,26 +773,31 @@ def exec_rollouts(case, ctx):
                    "candidate_ll": [ll[j * B + b] for j in tied]})
 
     # ---- evaluate mode on a harness-expanded batch: same per-step log-probs -------------------
-    if not case["sum_ll"]:
+    # (PolyNet conditions every rollout on its start / sample index by design: no per-instance evaluation to compare with)
+    if not case["sum_ll"] and key != "polynet":
         inst_rep = torch.cat([inst.clone() for _ in range(k_eff)], 0)
         td_rep = env.reset(inst_rep.clone())
         with torch.no_grad():
             ev = ctx.guard(policy, td_rep, env, phase="test", actions=acts.clone(), return_sum_log_likelihood=False,
-                           what=f"policy_evaluate|{name}")
+                           what=f"policy_evaluate|{tagn}")
         le = ev["log_likelihood"]
         lo = 1 if multistart else 0
+        # different batch layouts ([B,S,..] vs [S*B,..]): float32 rounding, amplified by deep / unclipped / saturated
+        # configurations (C11 measured up to 5e-4 on the 6-layer POMO config): 1e-4 in the attention-model default
+        # domain, 1e-3 for the other policies, drawn env options and constructor switches (layout defects are O(1))
+        etol = 1e-4 if (key == "am" and not case.get("ecfg") and not case.get("opts")) else 1e-3
         if multistart:
-            ctx.check(bool((ll[:, 0] == 0).all()), f"rollout|{name}|{mode}|forced_step_logprob",
+            ctx.check(bool((ll[:, 0] == 0).all()), f"rollout|{tagn}|{mode}|forced_step_logprob",
                       "forced start actions must carry log-prob 0")
-        if ctx.check(le.shape == ll.shape, f"rollout|{name}|{mode}|evaluate_shape",
+        if ctx.check(le.shape == ll.shape, f"rollout|{tagn}|{mode}|evaluate_shape",
                      f"evaluate-mode log-probs {tuple(le.shape)} vs rollout {tuple(ll.shape)}"):
             d = (le[:, lo:] - ll[:, lo:]).abs()
-            ctx.check(bool((d <= 1e-4).all()), f"rollout|{name}|{mode}|logprob_not_own_instance",
+            ctx.check(bool((d <= etol * (1 + ll[:, lo:].abs())).all()), f"rollout|{tagn}|{mode}|logprob_not_own_instance",
                       f"per-step log-probs of the replicated rollout differ from evaluating the same actions on "
                       f"instance r mod B alone (max diff {float(d.max()):.3e}, row {int(d.max(1).values.argmax())})",
                       {"B": B, "k": k_eff})
             ctx.check(bool(((ev["reward"].reshape(-1) - rew.reshape(-1)).abs() <= 1e-5 * (1 + rew.reshape(-1).abs())).all()),
-                      f"rollout|{name}|{mode}|evaluate_reward", "evaluate-mode reward differs from the rollout reward")
+                      f"rollout|{tagn}|{mode}|evaluate_reward", "evaluate-mode reward differs from the rollout reward")
         ctx.event("evaluate_compared")
     ctx.sample({"env": name, "n": case["n"], "B": B, "mode": mode, "k": k_eff, "best_reward": rb.tolist(),
                 "actions_row0": acts[0].tolist()})
